@@ -222,25 +222,28 @@ func (c *c11) RunCase(w *core.Worker, idx int, seed uint64, res *core.CaseResult
 			if entry == nil {
 				continue
 			}
-			req := &sdcpb.GetDataRequest{Name: run.ds.Name, Path: []*sdcpb.Path{entry.ToPb()}, DataType: sdcpb.DataType_CONFIG, Encoding: sdcpb.Encoding_STRING, Datastore: &sdcpb.DataStore{Type: sdcpb.Type_MAIN}}
-			got := c.gd.get(srv, req)
-			res.Count("getdata_requests", 1)
 			want := map[string]string{}
 			for k, v := range dev {
 				if entry.Covers(model.Parse(k)) {
 					want[k] = v
 				}
 			}
-			if got.err != nil {
-				if strings.HasPrefix(got.err.Error(), "PANIC") {
-					res.Inconclusive("api-panic", "%s: GetData %s: %v", where, entry, got.err)
-				} else {
-					res.Violate("C11/getdata-fails-for-valid-instance-path", "%s: GetData %s: %v", where, entry, got.err)
+			// every encoding has its own copy of the filtering loop
+			for _, enc := range []sdcpb.Encoding{sdcpb.Encoding_STRING, sdcpb.Encoding_PROTO, sdcpb.Encoding_JSON, sdcpb.Encoding_JSON_IETF} {
+				req := &sdcpb.GetDataRequest{Name: run.ds.Name, Path: []*sdcpb.Path{entry.ToPb()}, DataType: sdcpb.DataType_CONFIG, Encoding: enc, Datastore: &sdcpb.DataStore{Type: sdcpb.Type_MAIN}}
+				got := c.gd.get(srv, req)
+				res.Count("getdata_requests", 1)
+				if got.err != nil {
+					if strings.HasPrefix(got.err.Error(), "PANIC") {
+						res.Inconclusive("api-panic", "%s: GetData %s: %v", where, entry, got.err)
+					} else {
+						res.Violate("C11/getdata-fails-for-valid-instance-path", "%s: GetData %s (%s): %v", where, entry, enc, got.err)
+					}
+					continue
 				}
-				continue
-			}
-			if d := fixture.MapDiff(want, got.leaves); d != "" {
-				res.Violate("C11/getdata-confuses-instance-paths", "%s: GetData %s returned something else than that entry: %s", where, entry, d)
+				if d := fixture.MapDiff(want, got.leaves); d != "" {
+					res.Violate("C11/getdata-confuses-instance-paths", "%s: GetData %s (%s) returned something else than that entry: %s", where, entry, enc, d)
+				}
 			}
 		}
 	}
